@@ -137,13 +137,17 @@ def rxEvs (data : Bytes) : List Ev :=
   | [] => []
   | d0 :: rest => [rxEvent d0 rest]
 
+/-- the blocked `RadioDriver.send_packet` call (if any) returns True once its `put` has gone through -/
+def accEv : Option Pkt → List Ev
+  | some w => [.accepted w]
+  | none => []
+
 /-- `outPacket = self._out_queue.get(True, waitTime)` and the construction of the next `dataOut`;
 a `put` blocked on the full queue completes as soon as the slot is free -/
 def Host.fetch (h : Host) : Host × List Ev :=
   match h.slot with
   | some p =>
-    ({ h with out := p.frame, slot := h.waiter, waiter := none },
-     match h.waiter with | some w => [.accepted w] | none => [])
+    ({ h with out := p.frame, slot := h.waiter, waiter := none }, accEv h.waiter)
   | none => ({ h with out := [UInt8.ofNat Gen.C01.nullByte] }, [])
 
 /-- the part of the `while True` body after `ackStatus` has been assigned -/
